@@ -29,7 +29,8 @@ RULE = ("kinds: roundtrip (both shipped sample types, declared size 1..14, 0..13
         "save_h5 + load_h5, compared bit-for-bit; keys (h5py iteration order of the group names, n up to 3 digits); "
         "concat (0..4 chains, chain files loaded in random argument order); evaluate (batchie.cli.evaluate_model.main "
         "in-process on 1..4 chain files x 1..13 samples: column k matched bitwise to the prediction of an in-memory sample); "
-        "ops (add_theta/get_theta sequences incl. negative and too large indices, declared <= 0).  "
+        "ops (add_theta/get_theta sequences incl. negative and too large indices, declared <= 0); equals (Theta.equals on a sample and a rebuilt copy "
+        "changed in at most one array / scalar / table entry / the class: true exactly for the unchanged copy).  "
         "Non-trivial: at least one stored sample / one operation; distinct by case description.")
 THEOREMS = {
     "C10_model_is_source_init": "the Gallina translation of the whole method ThetaHolder.__init__, regenerated from /repo's current source on this run (Generated/SrcThetas.v), turns ANY fresh instance into (same class, declared size n, no samples) = the model's empty_holder n",
@@ -307,6 +308,13 @@ def gen(rng, tier):
         yield dict(kind="checkpoint", type=rng.choice(["inter", "inter", "inter", "combo"]), dims=[rng.randint(1, 3), rng.randint(1, 3), rng.randint(1, 2)],
                    mode=rng.choice(["mixed", "mixed", "f32"]) if False else "mixed", tsize=rng.randint(1, 6),
                    steps=["first"] + [rng.choice(["revalue", "revalue", "grow", "both", "same"]) for _ in range(n - 1)], vseed=rng.getrandbits(32))
+    # Theta.equals on pairs of samples that differ in at most one place (implementation-only predicate)
+    for _ in range(60 if not big else 400):
+        typ = rng.choice(["combo", "inter", "inter"])
+        muts = ["none", "none", "W", "V2", "precision", "other_class"] + \
+            (["W0", "V1", "V0", "alpha"] if typ == "combo" else ["table_value", "table_key", "table_extra", "table_order", "table_value"])
+        yield dict(kind="equals", type=typ, dims=[rng.randint(1, 3), rng.randint(1, 3), rng.randint(1, 2)], tsize=rng.randint(2, 6),
+                   mutate=rng.choice(muts), vseed=rng.getrandbits(32))
     # ops
     for _ in range(90 if not big else 900):
         declared = rng.choice([-2, 0, 1, 2, 3, 5, 11, 13])
@@ -715,8 +723,54 @@ def _run_checkpoint(desc):
     return dict(wire=None, impl=None, pred=pred, features=["checkpoint", "type:" + typ] + sorted({"step:" + x for x in steps[1:]}))
 
 
+def _run_equals(desc):
+    """Theta.equals(a, b) must say whether the two samples hold the same parameter values (finite values, no NaN): b is a
+    rebuilt copy of a, changed in at most one place (implementation-only predicate; the linked model is Model/ThetaDicts.v
+    sample_eqb, where two tables with the same entries in another iteration order are NOT equal - as in the code)"""
+    typ, mut = desc["type"], desc["mutate"]
+    dims = tuple(desc["dims"])
+
+    def build(other_class=False):
+        r = random.Random(desc["vseed"])
+        t = typ if not other_class else ("inter" if typ == "combo" else "combo")
+        table = make_table(r, desc["tsize"], "moderate") if typ == "inter" or other_class else None
+        return make_sample(r, t, dims, "moderate", "f8", table if t == "inter" else None)
+    a = build()
+    b = build(other_class=(mut == "other_class"))
+    if mut in ("W", "V2", "W0", "V1", "V0"):
+        arr = np.array(getattr(b, mut), copy=True)
+        arr.flat[arr.size - 1] += 1.0
+        setattr(b, mut, arr)
+    elif mut in ("precision", "alpha"):
+        setattr(b, mut, getattr(b, mut) + 1.0)
+    elif mut.startswith("table_"):
+        tb = dict(b.single_effect_lookup)
+        ks = list(tb)
+        if mut == "table_value":
+            tb[ks[-1]] = tb[ks[-1]] + 1.0
+        elif mut == "table_key":
+            v = tb.pop(ks[-1])
+            tb[(ks[-1][0] + 50, ks[-1][1])] = v
+        elif mut == "table_extra":
+            tb[(77, 7)] = 0.5
+        elif mut == "table_order":
+            tb = {k: tb[k] for k in reversed(ks)}
+        b.single_effect_lookup = tb
+    expected = mut == "none"
+    with contextlib.redirect_stdout(io.StringIO()):
+        got, back = impl_call(lambda: bool(a.equals(b))), impl_call(lambda: bool(b.equals(a)))
+    pred = None
+    if got is not expected:
+        pred = "equals returned %r for two samples that %s" % (got, "hold the same values" if expected else "differ in " + mut)
+    elif back is not expected:
+        pred = "equals (arguments exchanged) returned %r for two samples that %s" % (back, "hold the same values" if expected else "differ in " + mut)
+    return dict(wire=None, impl=None, pred=pred, features=["equals", "type:" + typ, "differ:" + mut])
+
+
 def run(desc):
     k = desc["kind"]
+    if k == "equals":
+        return _run_equals(desc)
     if k == "checkpoint":
         return _run_checkpoint(desc)
     if k == "keys":
